@@ -48,6 +48,10 @@ def main():
     except Exception:
         traceback.print_exc()
         path = core.write_replay(ctx, 'checker crashed', [], traceback.format_exc())
+        # failing inputs the search had already produced before the crash are still reported
+        for what, vpath, has_input in ctx.violations:
+            if has_input:
+                print('VIOLATION property=%s replay=%s' % (prop, vpath), flush=True)
         print('VIOLATION property=%s replay=%s no-failing-input-found' % (prop, path), flush=True)
         rc = 1
     finally:
